@@ -554,6 +554,8 @@ type ContractSet struct {
 	ObjInvs map[string][]*Clause // pkgpath.TypeName → invariants over `self`
 	SeqItems []*SinkRule        // seq-items <Method>(params) yields(a, b) ensures E
 	IfaceEns []*SinkRule        // iface-ensures <Iface>.<Method>(params) E   (assumed interface contract)
+	IfacePure map[string]bool   // method names of interfaces treated as deterministic, effect-free observers
+	Lemmas   []*SpecFunc        // lemma name(params) = E  (proved by SMT for all parameter values)
 }
 
 type PkgMode struct {
@@ -562,14 +564,14 @@ type PkgMode struct {
 }
 
 func NewContractSet() *ContractSet {
-	return &ContractSet{Funcs: map[string]*Contract{}, Specs: map[string]*SpecFunc{}, Guarded: map[string]string{}, Immut: map[string]bool{}, PkgMode: map[string]PkgMode{}, ObjInvs: map[string][]*Clause{}}
+	return &ContractSet{Funcs: map[string]*Contract{}, Specs: map[string]*SpecFunc{}, Guarded: map[string]string{}, Immut: map[string]bool{}, PkgMode: map[string]PkgMode{}, ObjInvs: map[string][]*Clause{}, IfacePure: map[string]bool{}}
 }
 
 var clauseKeywords = map[string]bool{
 	"func": true, "requires": true, "ensures": true, "loop": true, "modifies": true, "trusted": true,
 	"pure": true, "inline": true, "noinline": true, "strings": true, "bytes": true, "panics": true, "bind": true, "sink": true,
 	"axiom": true, "log": true, "atomic": true, "guarded_by": true, "immutable": true, "must-close": true,
-	"opaque": true, "unroll": true, "yield-requires": true, "invariant": true, "seq-items": true, "private": true, "iface-ensures": true, "producer": true, "closure": true, "package": true, "assume-return": true,
+	"opaque": true, "unroll": true, "yield-requires": true, "invariant": true, "seq-items": true, "private": true, "iface-ensures": true, "iface-pure": true, "lemma": true, "producer": true, "closure": true, "package": true, "assume-return": true,
 }
 
 // LoadContractFile parses one contracts_verif.go file (or any file with //@ lines).
@@ -783,6 +785,22 @@ func (cs *ContractSet) LoadContractFile(path, pkgPath string) error {
 			} else if cur != nil {
 				cur.Pure = true
 			}
+		case "iface-pure":
+			for _, m := range strings.Split(rest, ",") {
+				m = strings.TrimSpace(m)
+				if j := strings.LastIndexByte(m, '.'); j >= 0 {
+					m = m[j+1:]
+				}
+				cs.IfacePure[m] = true
+			}
+			cs.Scan = append(cs.Scan, fmt.Sprintf("%s:%d: assumed: interface observers are deterministic and effect-free: %s", path, it.line, rest))
+		case "lemma":
+			sf, err := parseSpecFunc(rest)
+			if err != nil {
+				return fmt.Errorf("%s:%d: %v", path, it.line, err)
+			}
+			sf.Pkg = pkgPath
+			cs.Lemmas = append(cs.Lemmas, sf)
 		case "iface-ensures":
 			// iface-ensures BlobWriter.ID() result != ""
 			m := regexp.MustCompile(`^([\w.]+)\.(\w+)\(([^)]*)\)\s+(.*)$`).FindStringSubmatch(rest)
